@@ -12,7 +12,7 @@ import re
 
 from sim import env  # noqa: F401
 from sim.canon import dumps
-from sim.gen_expr import gen_ahb_parts, gen_invalid, gen_valid, key_universe, render, render_ahb
+from sim.gen_expr import gen_ahb_parts, gen_invalid, gen_valid, key_universe, keys_of, render, render_ahb
 from sim.prf import PROFILES, rng
 from sim.props.common import (
     LIVENESS_ERRORS,
@@ -104,11 +104,26 @@ async def do_op(sim, request):
         return await expand_packages(tree)
     if kind == "valid":
         schema = ContentEvaluationResultSchema()
+        handed_out = []
 
         def setter(content_evaluation_result):
-            CER.set(schema.dump(content_evaluation_result))
+            body = schema.dump(content_evaluation_result)
+            handed_out.append(body)  # keeps the object alive, so that its id() identifies it for the whole run
+            CER.set(body)
 
         flag, reason = await is_valid_expression(op["expr"], setter)
+        if flag and op.get("has_rc"):
+            # every evaluation sees its own data: whatever was set for an evaluation has been seen by that
+            # evaluation's requirement-constraint evaluators (all of them ran to completion: the verdict is True)
+            unseen = [body for body in handed_out if id(body) not in sim.data_seen]
+            sim.probe("validity_setter_calls", len(handed_out))
+            if unseen and sim.scenario["world"].get("flavour", "sim") == "sim":
+                sim.shared_violation = (
+                    "isolation:valid",
+                    f"{REQ.get()}: is_valid_expression({op['expr']!r}) set {len(handed_out)} content evaluation "
+                    f"results but the evaluators never saw {len(unseen)} of them, e.g. "
+                    f"{unseen[0]['requirement_constraints']}",
+                )
         # the reason text legitimately depends on which of the gathered evaluations fails first (DESIGN 9.2)
         return [flag, isinstance(reason, str) and len(reason) > 0]
     raise ValueError(kind)
@@ -172,7 +187,7 @@ def _gen_op(rnd, rc, hints, fcs, packages, flavour="sim"):
         ast, _ = gen_valid(rnd, rnd.randint(1, 3), small_rc, hints, small_fc)
     indicator = rnd.choice(["Muss", "X", "Soll", "Kann"])
     return {"op": "valid", "parts": [(indicator.upper() if indicator != "X" else "X", ast)],
-            "expr": f"{indicator} {render(ast)}"}
+            "expr": f"{indicator} {render(ast)}", "has_rc": any(k in small_rc for k in keys_of(ast))}
 
 
 def generate(seed, tier="quick"):
@@ -287,6 +302,8 @@ def execute(scenario):
     verdict = base_verdict(sim, scenario)
     verdict["completed"] = sum(1 for r in observed if "ok" in outcomes.get(r["rid"], {}))
     verdict["observed"] = len(observed)
+    if getattr(sim, "shared_violation", None):
+        fail(verdict, *sim.shared_violation)
     for request in observed:
         rid = request["rid"]
         outcome = {k: v for k, v in outcomes.get(rid, {"missing": True}).items() if k != "msg"}
@@ -352,6 +369,8 @@ def shrink(scenario):
             parts = [(i, to_tuple(a)) for i, a in op["parts"]]
             prefix = op["expr"].split(" ")[0] if op["op"] == "valid" else None
 
+            rc_keys = set(scenario["world"]["rc_keys"])
+
             def rendered(new_parts, _prefix=prefix):
                 if _prefix is not None:
                     return f"{_prefix} {render(new_parts[0][1])}"
@@ -368,7 +387,10 @@ def shrink(scenario):
                     continue
                 for smaller in shrink_ast(ast):
                     new_parts = parts[:pindex] + [(indicator, smaller)] + parts[pindex + 1 :]
-                    yield _with_op(scenario, index, dict(op, parts=new_parts, expr=rendered(new_parts)))
+                    new_op = dict(op, parts=new_parts, expr=rendered(new_parts))
+                    if op["op"] == "valid":
+                        new_op["has_rc"] = any(k in rc_keys for k in keys_of(smaller))
+                    yield _with_op(scenario, index, new_op)
         for field in ("keys", "items"):
             if field in op and len(op[field]) > 1:
                 for drop in range(len(op[field])):
